@@ -534,6 +534,10 @@ class Sourcefile:
         _ignore = ('_ast',)
         return dict((k, v) for k, v in self.__dict__.items() if k not in _ignore)
 
+    def __setstate__(self, s):
+        self.__dict__.update(s)
+        self._ast = None
+
     def apply(self, op, **kwargs):
         """
         Apply a given transformation to the source file object.
